@@ -29,7 +29,7 @@ ASSUMPTIONS = [
 
 
 def budget(tier):
-    return 8000 if tier == 'quick' else 80000
+    return 8000 if tier == 'quick' else 250000
 
 
 @st.composite
@@ -55,6 +55,30 @@ def _cases(draw, tier):
             v['n3'] = 2
             v['luq'] = 4
         return {'kind': 'lengths', 'v': v}
+    k = pct(draw)
+    if k < 4:
+        # many instances in one run (file naming, per-run state)
+        v = draw(genargs.legal_vectors(nmax=(4, 4, 3), numinst_max=1))
+        v['numinst'] = draw(st.sampled_from([10, 11, 12, 25, 101]))
+        return {'kind': 'wellformed', 'v': v}
+    if k < 8:
+        # large sparse requests: many second-side agents, short lists
+        mp = draw(st.sampled_from(genargs.TYPES))
+        n2 = draw(st.sampled_from([60, 150, 300]))
+        n1 = draw(st.sampled_from([100, 300])) if mp != 'sm' else n2
+        pmax = draw(st.sampled_from([1, 2, 5]))
+        pmin = draw(st.sampled_from([1, pmax]))
+        v = {'mp': mp, 'numinst': 1, 'n1': n1, 'pmin': pmin, 'pmax': pmax,
+             'seed': uni(draw, 0, 9999), 'skew': draw(st.sampled_from([1.0, 3.0]))}
+        if mp != 'sm':
+            v['n2'] = n2
+            v['uq'] = n2 + draw(st.sampled_from([0, 7]))
+        if mp in ('sm', 'hr'):
+            v['twopl'] = True
+        if mp == 'spa':
+            v['n3'] = draw(st.sampled_from([7, 40]))
+            v['luq'] = v['n3'] * 3
+        return {'kind': 'wellformed', 'v': v}
     big = (30, 12, 8) if tier == 'thorough' else (12, 8, 6)
     return {'kind': 'wellformed', 'v': draw(genargs.legal_vectors(nmax=big, numinst_max=4))}
 
@@ -183,6 +207,10 @@ def run_case(case):
         ties = ties or any(len(g) > 1 for pl in I['prefs'] for g in pl)
         uneven = uneven or len(set(I['puq'])) > 1 or len(set(I['luq'])) > 1
     labels = ['mp=' + v['mp'], 'kind=' + case['kind'], 'twopl' if v.get('twopl') else 'one_sided']
+    if v['numinst'] >= 10:
+        labels.append('numinst>=10')
+    if v.get('n2', v['n1']) >= 60:
+        labels.append('n2>=60')
     if case['kind'] == 'lengths':
         missing = [l for l in range(v['pmin'], v['pmax'] + 1) if l not in lens]
         if missing:
